@@ -123,6 +123,8 @@ class Exec:
         self.timeout_ms = timeout_ms
         self.inlined = set()       # qualnames executed inline
         self.undeclared_fields = set()
+        self.prefix_mode = False   # contract option prefix=True: verify the refusal prefix of a function only
+        self.cuts = []
         self.consts_seen = {}      # qualified module/class constant -> ast dump (part of the unit's fingerprint)
         self.node_kinds = set()
         self.unit = None           # qualname of the unit under verification
@@ -1170,9 +1172,17 @@ class Exec:
             raise Unsupported("statement %s at line %s" % (type(s).__name__, s.lineno))
         saved = self._raises
         self._raises = []
+        p_start = p.fork() if self.prefix_mode else None
         try:
             outs = list(m(p, s))
             mine = self._raises
+        except Unsupported as e:
+            if not self.prefix_mode:
+                raise
+            # prefix verification: the path is cut at the first statement outside the modelled subset (state as at the
+            # start of that statement); only the refusal clauses are generated for it
+            self.cuts.append("line %s: %s" % (getattr(s, "lineno", "?"), e))
+            return [Outcome("cut", p_start, "line %s: %s" % (getattr(s, "lineno", "?"), e))]
         finally:
             self._raises = saved
         return outs + [Outcome("raise", q, e) for q, e in mine]
